@@ -41,7 +41,17 @@ def run_traced(spec, fault=None, gp_faults=None, predict_faults=None, ei_script=
                es_script=None, iter_cap=None, update_faults=None):
     """Execute one run described by `spec`; returns a picklable trace dict."""
     import logging
-    logging.disable(logging.CRITICAL)
+    # logging stays ENABLED (the display levels 'iter' / 'full' are options like any other and switch code paths on), its output goes nowhere
+    logging.disable(logging.NOTSET)
+    _root = logging.getLogger()
+    for _h in list(_root.handlers):
+        _root.removeHandler(_h)
+    _root.addHandler(logging.NullHandler())
+    _bl = logging.getLogger("BADS")
+    for _h in list(_bl.handlers):
+        _bl.removeHandler(_h)
+    _bl.addHandler(logging.NullHandler())
+    _bl.propagate = False
     import warnings
     warnings.filterwarnings("ignore")
     from . import gen
@@ -551,7 +561,13 @@ def _install_gp_wrappers(patch, state, ev, bb, gpt, es, gp_faults, update_faults
         if gp_faults and i in gp_faults:
             e["fault"] = True
             raise np.linalg.LinAlgError("injected: matrix not positive definite")
-        return o_fit(self, X, y, s2, hyp0=hyp0, options=options, **kw)
+        try:
+            return o_fit(self, X, y, s2, hyp0=hyp0, options=options, **kw)
+        except np.linalg.LinAlgError:
+            # a GENUINE Cholesky failure of the fitting oracle (not injected): the same oracle outcome as an injected one
+            e["fault"] = True
+            e["genuine"] = True
+            raise
 
     patch(GP, "fit", w_fit)
 
